@@ -54,7 +54,8 @@ func verifRunWithCrash(match func(ev string) bool, fn func()) (crashed bool, at 
 	return false, ""
 }
 
-// H03-hist: prefix, then `suffix`-1 free statements, then a last INSERT/UPDATE/
+// H03-hist: prefix, then `suffix`-1 free statements (optionally followed by a
+// flush of the page cache), then a last INSERT/UPDATE/
 // DELETE whose log append is interrupted before one of its write/sync calls.
 // After recovery (image = all written bytes, or the log cut back to the last
 // fsync) the database starts, each table equals the state before the statement
@@ -64,10 +65,24 @@ func verifH_C03_hist() {
 	d := verifParam("suffix", 1)
 	slen := verifParam("slen", 1)
 	rs, db := verifPrefixDB(sc, 0, verifParam("warm", 0) == 1)
+	// the earlier statements' log appends are fsynced: a native run learns the
+	// durable length of the log from the same hook the interrupted statement uses
+	// (the engine's file-system model tracks fsync by itself)
+	storage.VerifPoint = func(ev string, off uint64) {
+		if ev == "wal.synced" {
+			verifFSMarkSynced("data/db/wal")
+		}
+	}
 	for i := 0; i < d-1; i++ {
 		st := verifFreeStmt(db, fmt.Sprintf("s%d", i), slen, 4)
 		verifAssert(st.run(rs) == nil, "statement-ok")
 		st.apply(db)
+	}
+	storage.VerifPoint = nil
+	if verifParam("preflush", 0) == 1 {
+		// the page cache is flushed (timer) between the earlier statements and the interrupted one
+		verifAssert(storage.VerifFlush(rs) == nil, "flush-ok")
+		verifTag("preflush", "yes")
 	}
 	// the interrupted statement: kinds 0..3 (no CREATE TABLE: it is not logged)
 	st := verifFreeStmt(db, "last", slen, 4)
